@@ -6,7 +6,9 @@
    remote peer).  The environment (the transport) may report a link established any number of
    times while it has not reported it lost, may report losses late (after the link was replaced by
    a newer object with the same uuid) and more than once.  Environment assumption: per link
-   object, the first Est precedes any Lost.
+   object, the first Est precedes any Lost.  A link object the controller has closed (replaced or lost)
+   is dead: if the transport reports it established once more it is not reported (its accept pump ends
+   at once and the controller drops it), but it still evicts the live link registered under its uuid.
    BugFastPath re-creates the tree as found (D7): HandleLinkLost removes whatever link currently
    holds the uuid. *)
 EXTENDS Naturals, FiniteSets, Sequences, TLC
@@ -35,6 +37,13 @@ Est(l) ==
      THEN /\ closed' = closed \cup {l} /\ UNCHANGED <<reg, byPeer, live>>      \* self-dial: closed, never registered
      ELSE LET cur == reg[c][Uuid(l)] IN
           IF cur = l THEN UNCHANGED <<reg, byPeer, closed, live>>              \* duplicate report
+          ELSE IF l \in closed
+          THEN \* the established report of a link the controller has already closed: it evicts the link registered under its uuid and,
+               \* being closed, unregisters itself again when its accept pump ends (net effect at the next quiescent point)
+               /\ reg' = [reg EXCEPT ![c][Uuid(l)] = "none"]
+               /\ byPeer' = IF cur # "none" THEN [byPeer EXCEPT ![c][Remote(cur)] = @ \ {cur}] ELSE byPeer
+               /\ closed' = IF cur # "none" THEN closed \cup {cur} ELSE closed
+               /\ live' = live \ {x \in live : CtrlOf(x) = c /\ Uuid(x) = Uuid(l)}
           ELSE LET b1 == IF cur # "none" THEN [byPeer[c] EXCEPT ![Remote(cur)] = @ \ {cur}] ELSE byPeer[c] IN
                /\ reg' = [reg EXCEPT ![c][Uuid(l)] = l]
                /\ byPeer' = [byPeer EXCEPT ![c] = [b1 EXCEPT ![Remote(l)] = @ \cup {l}]]
